@@ -18,6 +18,9 @@ def main():
     mod = runner.monitor_module(prop)
     rep = report.Report(prop, spec)
     rep.count("failed_library_calls_before_the_workload", failed)
+    from . import api
+
+    api.check(rep, prop)
     mod.run_shard(spec, rep)
     if spec.get("only") is None:
         from . import threads
